@@ -6,11 +6,13 @@ THEOREMS = [
     # nextWait (stated over the go2lean translation LLRP.Gen.retry_nextWait)
     'wait_bounds', 'wait_nojitter', 'wait_jitter', 'wait_jitter_exact', 'nextWait_safe',
     'raw_edges', 'raw_negative_base_witness', 'api_wait_bounds', 'monitor_accepts', 'feasible_sound', 'feasible_complete',
-    # RetryWithCtx (hand-written model LLRP.Retry.run, tied by the differential run)
+    # RetryWithCtx: LLRP.Retry.run, proved equal to the go2seq translation of ExpBackOff.RetryWithCtx (src_retry), and
+    # additionally tied by the differential run
+    'src_retry',
     'runs_total', 'runs_exhaust', 'below_one_is_one', 'terminates', 'stops_at_once', 'success_iff_last_ok',
     'failure_reason', 'entry_is_vacuous', 'kept_errors', 'waits_are_nextWait', 'waits_bounded', 'deadline_respects_max',
 ]
-MODULES = ['LLRP.Model.Retry', 'LLRP.Model.GoInt', 'LLRP.Proofs.Retry', 'LLRP.Oracle.C18']
+MODULES = ['LLRP.Model.Retry', 'LLRP.Model.GoInt', 'LLRP.Model.GoSeq', 'LLRP.Proofs.Retry', 'LLRP.Proofs.SeqRetry', 'LLRP.Oracle.C18']
 RULE = ('nextWait: n in -2..70 and 5 extreme n x (base, max) in {0, 1, 1ms, 1s, 1min, 2^62, 2^63-1, 3 random, -1, -2^63, random negative}^2 '
         'without jitter (value compared with the translated function, and judged by the Lean pause monitor for base, max >= 1), with jitter for base >= 0 (each observed value must be feasible for some draw 0 <= s < 2^n, '
         'decided arithmetically by the Lean model). RetryWithCtx: every outcome sequence over {ok, recoverable, fatal} of length <= 6 '
@@ -24,7 +26,9 @@ RULE = ('nextWait: n in -2..70 and 5 extreme n x (base, max) in {0, 1, 1ms, 1s, 
         'retry requests in which the operation is called at least twice or the context intervenes')
 ASSUMPTIONS = ['rand.Int63n(k) returns a value in [0, k) (theorems about jitter take 0 <= rnd < 2^attempts as hypothesis)',
                'BackOff, Max and attempts are int64 values (range hypotheses of the nextWait theorems)',
-               'the RetryWithCtx model (LLRP.Model.Retry) is hand-written; it is tied to retry.go by the differential run; '
+               'the RetryWithCtx model (LLRP.Model.Retry) is proved equal (src_retry) to the go2seq translation of ExpBackOff.RetryWithCtx '
+               '(loop on fuel); what stays hand-written is the meaning of the calls it makes (SeqGlue.retryEnv: the scripted operation and '
+               'context, timers without effect, newFError/addErr as Retry.newFError/FErr.addErr); those and the translator are validated by the differential run; '
                'nextWait is the go2lean translation of the source',
                'a wait is abstracted to one of: timer fires first / ctx.Done observed first / deadline check fails; '
                'timer accuracy and the scheduler are runtime behaviour (elapsed >= sum of waits is measured, not proved)',
